@@ -584,6 +584,12 @@ class Gen:
         self.tagn += 1
         return self.tagn
 
+    def tagged(self, e, t):
+        """With the tags option: add the statement's unique non-foldable tag (ztz% reads 0) to a numeric expression."""
+        if self.o.tags and t != '$':
+            return ('bin', '+', ('par', e), ('bin', '*', ('var', 'ztz%', '%'), ('lit', '&', self.tag() + 40000)))
+        return e
+
     def simple_stmt(self, sc):
         r = self.r
         o = self.o
@@ -949,8 +955,8 @@ class Gen:
             self.need_depth = True
         if kind == 'function':
             if o.exit_stmts and r.random() < 0.2:
-                body.append(['ifline', self.cond(sc), [['let', ('var', proc['name'], rtype), self.expr(sc, rtype, 1), False], ['exitfunction']], None])
-            body.append(['let', ('var', proc['name'], rtype), self.expr(sc, rtype, 1), False])
+                body.append(['ifline', self.cond(sc), [['let', ('var', proc['name'], rtype), self.tagged(self.expr(sc, rtype, 1), rtype), False], ['exitfunction']], None])
+            body.append(['let', ('var', proc['name'], rtype), self.tagged(self.expr(sc, rtype, 1), rtype), False])
         elif o.exit_stmts and r.random() < 0.2:
             nd = max([i for i, x in enumerate(body) if x[0] in ('dim', 'const')] + [-1]) + 1
             body.insert(r.randint(nd, len(body)), ['ifline', self.cond(sc), [['exitsub']], None])
